@@ -4,9 +4,9 @@ from . import core, build, gentree, sqfsimg, views
 from .gentree import Node
 
 PROP = "C16"
-ALPHA = [b"a", b" ", b"\t", b'"', b"\\", b"'", b"#", b"=", b"-", b"\x80", b"\xff", b"\r"]
+ALPHA = [b"a", b" ", b"\t", b'"', b"\\", b"'", b"#", b"=", b"-", b"\x80", b"\xff", b"\r", b"\x0b", b"\x0c"]
 CLASS = {b"a": "plain", b" ": "space", b"\t": "tab", b'"': "dquote", b"\\": "backslash", b"'": "squote", b"#": "hash", b"=": "eq",
-         b"-": "dash", b"\x80": "hi", b"\xff": "hi", b"\r": "cr"}
+         b"-": "dash", b"\x80": "hi", b"\xff": "hi", b"\r": "cr", b"\x0b": "vt", b"\x0c": "ff"}
 
 
 def signature(s):
@@ -40,8 +40,19 @@ def build_tree(strs, r):
     return t
 
 
+def big_listing_strings(r, n):
+    """Names dominated by CR / quote / backslash so that every 128 KiB read-buffer boundary of the listing falls on one of them."""
+    out = []
+    for i in range(n):
+        ch = [b"\r", b"\r", b"\\", b'"', b" ", b"\t"][i % 6]
+        out.append(ch * r.choice([60, 120, 180, 199]) + b"%05d" % i + ch * r.choice([0, 1, 7, 30]))
+    return out
+
+
 def run_group(arg):
     sig, strs, variant, idx, tier = arg
+    if sig.startswith("big-listing"):
+        strs = big_listing_strings(core.rng_for(PROP, sig), 700 if tier == "quick" else 2500)
     oc = core.Outcome("%s/%s" % (sig, variant), features=(sig, variant))
     try:
         B = build.build("asan")
@@ -133,6 +144,8 @@ def main(tier):
             chunk = strs[k:k + 40]
             for vi, variant in enumerate(("plain", "unpack-root", "unpack-root-special")):
                 items.append((sig, chunk, variant, k + vi, tier))
+    for k in range(6 if tier == "quick" else 24):
+        items.append(("big-listing-%d" % k, [], ("plain", "unpack-root")[k % 2], k, tier))
     for oc in core.pmap(run_group, items):
         rep.add(oc)
     rep.extra["strings_total"] = len(allstr)
